@@ -126,7 +126,8 @@ func drawArg(t *rapid.T, w *vnode.World) interface{} {
 	case 15:
 		return rapid.SampledFrom([]string{"dGVzdA==:RWS", "abc", ":", "dGVzdA==:", "16Uiu2HAmP...:X"}).Draw(t, "confval")
 	case 16:
-		return "héllo世界12" // non-ASCII
+		// non-ASCII and exactly-12-byte names with characters outside the allowed set
+		return rapid.SampledFrom([]string{"héllo世界12", "abcdefghijé", "世界世界", "name0000000\x7f", "name-0000001", "NAME00000001", "name 0000001", "name0000000\u0000", "aergo.system", "éééééé"}).Draw(t, "oddName")
 	default:
 		return rapid.StringN(0, 20, 40).Draw(t, "anystr")
 	}
@@ -153,7 +154,7 @@ func drawPayload(t *rapid.T, w *vnode.World) (string, []byte) {
 			"v1stake": {}, "v1unstake": {},
 			"v1voteBP":     {vnode.BPN(0).Enc(), vnode.BPN(1).Enc()},
 			"v1voteDAO":    {rapid.SampledFrom([]string{"BPCOUNT", "STAKINGMIN", "GASPRICE", "NAMEPRICE"}).Draw(t, "tIssue"), rapid.SampledFrom([]string{"3", "13", "50000000000", "10000000000000000000000"}).Draw(t, "tVal")},
-			"v1createName": {"name" + fmt.Sprintf("%08d", rapid.IntRange(0, 3).Draw(t, "tName"))},
+			"v1createName": {rapid.SampledFrom([]string{"name00000000", "name00000001", "name00000002", "abcdefghijé", "世界世界", "NAME00000001", "name-0000001"}).Draw(t, "tName")},
 			"v1updateName": {"name00000001", vnode.KeyN(1).Enc()},
 			"v1setOwner":   {vnode.KeyN(1).Enc()},
 			"appendAdmin":  {vnode.KeyN(0).Enc()}, "removeAdmin": {vnode.KeyN(0).Enc()},
